@@ -45,6 +45,8 @@ type List struct {
 	// View: produced by slicing another slice or array; the model copies the elements, so a store through a view is
 	// not seen by the base.  Spare: the view is shorter than its base, an append would overwrite the base's elements.
 	View, Spare bool
+	// GoType: the static slice type the list had when it was last boxed into an interface (type assertions on it)
+	GoType types.Type
 }
 
 type Tuple []Value
@@ -957,7 +959,11 @@ func (ip *Interp) step(f *frame, v ssa.Value) Value {
 		}
 		return cl
 	case *ssa.MakeInterface:
-		return ip.eval(f, x.X)
+		v := ip.eval(f, x.X)
+		if l, ok := v.(*List); ok {
+			l.GoType = x.X.Type()
+		}
+		return v
 	case *ssa.ChangeInterface:
 		return ip.eval(f, x.X)
 	case *ssa.ChangeType:
